@@ -1733,4 +1733,9 @@ func TestVerifC05(t *testing.T) {
 		run.Count("layouts_sampled_shared_devices", 1)
 		check(i, c)
 	})
+
+	// ---- several blocks and collections through addCollection /
+	// ComputeChangeSets ("colls") and through a whole Balancer.Run against
+	// stub servers ("sweep"): c05sweep_test.go
+	c05RunMultiStreams(t, run)
 }
